@@ -874,6 +874,32 @@ func randValue(r *rng.R) string {
 var corpusNames = []string{"id", "userId", "user-id", "user_id", "1abc", "A", "a", "a1", "-a", "_a", "a-", "ID", "9", "a--b", "x-Y_z9",
 	"UserID", "iD", "z", "Z", "0", "-", "_", "--", "a-b-c", "aB-cD", "resp0_x", "JWT", "param", "P-1_q", "user-Id"}
 
+// longName: a grammar name of exactly n characters (the grammar has no length bound)
+func longName(n int) string {
+	const unit = "nameWith-Long_tail0123456789"
+	b := make([]byte, n)
+	for i := range b {
+		b[i] = unit[i%len(unit)]
+	}
+	return string(b)
+}
+
+var longLengths = []int{20, 26, 27, 28, 29, 32, 33, 64, 65, 80}
+
+func permutations(xs []string) [][]string {
+	if len(xs) <= 1 {
+		return [][]string{append([]string(nil), xs...)}
+	}
+	var res [][]string
+	for i := range xs {
+		rest := append(append([]string(nil), xs[:i]...), xs[i+1:]...)
+		for _, p := range permutations(rest) {
+			res = append(res, append([]string{xs[i]}, p...))
+		}
+	}
+	return res
+}
+
 func main() {
 	cfg := out.ParseFlags("C09")
 	if cfg.Extra == "c09-concurrent-child" {
@@ -895,6 +921,9 @@ func main() {
 
 	// ---- 1. regression corpus -----------------------------------------------------------
 	var specs []routeSpec
+	for _, l := range longLengths {
+		corpusNames = append(corpusNames, longName(l))
+	}
 	for _, n := range corpusNames {
 		specs = append(specs, routeSpec{segs: []tok{ph(n)}, be: []tok{lit("/b/"), ph(n), lit("/y")}, vals: []string{"VAL"}, tag: "corpus-name"})
 	}
@@ -917,6 +946,30 @@ func main() {
 		routeSpec{segs: []tok{ph("a"), ph("b")}, be: []tok{lit("/x/"), ph("b")}, be2: []tok{lit("/x/"), ph("a")}, vals: []string{"1", "2"}, tag: "two-backends"},
 	)
 	g.runRoutes(specs, "corpus")
+
+	// ---- 1a. a first-character-case pair among 3-4 parameters, in every order, with parameters
+	// that sort between / around the pair in byte order ('Id' < 'cat' < 'id'); and controls
+	specs = nil
+	for _, set := range [][]string{{"id", "cat", "Id"}, {"a", "B", "A"}, {"iD", "cat", "Id"}, {"Id", "cat", "dog", "id"}, {"x-1", "M", "X-1", "0"},
+		{longName(40), "m", strings.ToUpper(longName(40)[:1]) + longName(40)[1:]}} {
+		for _, perm := range permutations(set) {
+			var segs, be []tok
+			var vals []string
+			be = append(be, lit("/b"))
+			for j, n := range perm {
+				segs = append(segs, ph(n))
+				vals = append(vals, fmt.Sprintf("%d", j+1))
+				be = append(be, lit("/"), ph(n))
+			}
+			specs = append(specs, routeSpec{segs: segs, be: be, vals: vals, tag: "case-pair-orders"})
+		}
+	}
+	g.runRoutes(specs, "case-pair-orders")
+	for _, perm := range permutations([]string{"id", "cat", "Id"}) {
+		for _, colon := range []bool{true, false} {
+			g.initCase(colon, epToks([]tok{lit("x"), ph(perm[0]), ph(perm[1]), ph(perm[2])}), []tok{lit("/b/"), ph("id"), lit("/"), ph("cat"), lit("/"), ph("Id")}, "corpus")
+		}
+	}
 
 	// ---- 1b. instance reuse: ONE router instance per adapter serves the whole sequence -------
 	// (step-major: every route once, then every route again with other values, ...)
@@ -1110,7 +1163,14 @@ func main() {
 		seen := map[string]bool{}
 		for len(names) < k {
 			var n string
-			switch r.Intn(4) {
+			switch r.Intn(5) {
+			case 4:
+				// no length bound in the grammar: 20..80 characters, often at a power-of-two boundary
+				l := 20 + r.Intn(61)
+				if r.Bool() {
+					l = longLengths[r.Intn(len(longLengths))]
+				}
+				n = randFrom(r, "abcXYZ", 1) + randFrom(r, grammar, l-1)
 			case 0:
 				n = randFrom(r, grammar, 1+r.Intn(3))
 			case 1:
@@ -1230,5 +1290,5 @@ func main() {
 		g.initRaw(r.Bool(), mk(1+r.Intn(6)), mk(1+r.Intn(6)), "malformed")
 	}
 
-	w.Close("corpus (30 names x 5 adapters, collisions, raw patterns) -> several endpoints per configuration (every ordered selection of 2-3 (thorough 4) of 6 endpoints, some using a parameter only another endpoint declares; Init of the whole, then every endpoint routed) and instance reuse (one router instance per adapter: 3-5 different value vectors per route, routes alternating; 12 goroutines x 40 rounds over 12 inputs per adapter, distinct (input, observation) pairs) -> library casers vs ASCII models (all names of length <= 4 (thorough 5) over abAB01-_zZ9, all 256 single bytes) -> every name of length <= 4 (thorough 6) over {a,B,1,-,_} routed under each of the 5 adapters; 0..4 parameters with every sequence of <= 3 uses; declared x used subsets of {a,A,b,ab} through Init in both routing modes -> random names over the whole grammar, 1-4 parameters, random url_pattern shapes, unreserved values -> malformed raw patterns through Init; nontrivial = a parameter is declared and used (route) / Init rejects (init)", true)
+	w.Close("corpus (40 names incl. lengths 20..80 x 5 adapters, every order of 3-4 parameters containing a first-character-case pair, collisions, raw patterns) -> several endpoints per configuration (every ordered selection of 2-3 (thorough 4) of 6 endpoints, some using a parameter only another endpoint declares; Init of the whole, then every endpoint routed) and instance reuse (one router instance per adapter: 3-5 different value vectors per route, routes alternating; 12 goroutines x 40 rounds over 12 inputs per adapter, distinct (input, observation) pairs) -> library casers vs ASCII models (all names of length <= 4 (thorough 5) over abAB01-_zZ9, all 256 single bytes) -> every name of length <= 4 (thorough 6) over {a,B,1,-,_} routed under each of the 5 adapters; 0..4 parameters with every sequence of <= 3 uses; declared x used subsets of {a,A,b,ab} through Init in both routing modes -> random names over the whole grammar, 1-4 parameters, random url_pattern shapes, unreserved values -> malformed raw patterns through Init; nontrivial = a parameter is declared and used (route) / Init rejects (init)", true)
 }
